@@ -179,10 +179,147 @@ func (m *Machine) strConcat(a, b *Term) *Term {
 		return a
 	}
 	if a.S.K == KString {
-		return mk("str.++", SString, a, b)
+		return joinPieces(append(pieces(a), pieces(b)...))
 	}
 	m.note("algebra: string concatenation modelled as an injective constructor")
 	return m.ctor("concat", a, b)
+}
+
+// pieces flattens a String-domain term into the operands of its top-level concatenation.
+func pieces(t *Term) []*Term {
+	if t.Op == "str.++" {
+		var out []*Term
+		for _, a := range t.Args {
+			out = append(out, pieces(a)...)
+		}
+		return out
+	}
+	if t.IsConst() && t.Str == "" {
+		return nil
+	}
+	return []*Term{t}
+}
+
+// joinPieces rebuilds a term from pieces, merging adjacent literals.
+func joinPieces(ps []*Term) *Term {
+	var out []*Term
+	for _, p := range ps {
+		if p.IsConst() {
+			if p.Str == "" {
+				continue
+			}
+			if n := len(out); n > 0 && out[n-1].IsConst() {
+				out[n-1] = StrC(out[n-1].Str + p.Str)
+				continue
+			}
+		}
+		out = append(out, p)
+	}
+	switch len(out) {
+	case 0:
+		return StrC("")
+	case 1:
+		return out[0]
+	}
+	return mk("str.++", SString, out...)
+}
+
+// charFree reports whether the path condition is known (syntactically) to exclude byte ch from t.
+func (m *Machine) charFree(t *Term, ch byte) bool {
+	if t.IsConst() {
+		for i := 0; i < len(t.Str); i++ {
+			if t.Str[i] == ch {
+				return false
+			}
+		}
+		return true
+	}
+	if m.cfree != nil {
+		if set, ok := m.cfree[t]; ok {
+			for i := 0; i < len(set); i++ {
+				if set[i] == ch {
+					return true
+				}
+			}
+		}
+	}
+	return false
+}
+
+// markCharFree assumes and records that t contains none of the bytes in chars.
+func (m *Machine) markCharFree(t *Term, chars string) {
+	if t.IsConst() {
+		return
+	}
+	if m.cfree == nil {
+		m.cfree = map[*Term]string{}
+	}
+	for i := 0; i < len(chars); i++ {
+		if !m.charFree(t, chars[i]) {
+			m.assume(Not(strContains(t, StrC(string([]byte{chars[i]})))))
+			m.cfree[t] += string([]byte{chars[i]})
+		}
+	}
+}
+
+// cutAtByte splits a concatenation at the first occurrence of byte ch when that position
+// is syntactically determined: every piece before it is known to be free of ch.
+func (m *Machine) cutAtByte(t *Term, ch byte) (before, after *Term, ok bool) {
+	ps := pieces(t)
+	for i, p := range ps {
+		if p.IsConst() {
+			for j := 0; j < len(p.Str); j++ {
+				if p.Str[j] == ch {
+					b := append(append([]*Term{}, ps[:i]...), StrC(p.Str[:j]))
+					a := append([]*Term{StrC(p.Str[j+1:])}, ps[i+1:]...)
+					return joinPieces(b), joinPieces(a), true
+				}
+			}
+			continue
+		}
+		if !m.charFree(p, ch) {
+			return nil, nil, false
+		}
+	}
+	return nil, nil, false
+}
+
+// endsWithKnown decides syntactically whether t ends in byte ch.
+func (m *Machine) endsWithKnown(t *Term, ch byte) (ends bool, known bool) {
+	ps := pieces(t)
+	for i := len(ps) - 1; i >= 0; i-- {
+		p := ps[i]
+		if p.IsConst() {
+			return p.Str[len(p.Str)-1] == ch, true
+		}
+		if !m.charFree(p, ch) {
+			return false, false
+		}
+		// p is free of ch: if it is non-empty the answer is no, if it is empty look further left
+	}
+	return false, true
+}
+
+// litPrefix decides syntactically whether t starts with the literal pre, returning the rest.
+func (m *Machine) litPrefix(t *Term, pre string) (rest *Term, has bool, known bool) {
+	ps := pieces(t)
+	if len(ps) == 0 {
+		return StrC(""), pre == "", true
+	}
+	if !ps[0].IsConst() {
+		return nil, false, false
+	}
+	f := ps[0].Str
+	if len(f) >= len(pre) {
+		if f[:len(pre)] == pre {
+			return joinPieces(append([]*Term{StrC(f[len(pre):])}, ps[1:]...)), true, true
+		}
+		return nil, false, true
+	}
+	if pre[:len(f)] != f {
+		return nil, false, true
+	}
+	return nil, false, false
 }
 
 func intOfBV(t *Term) *Term {
